@@ -24,6 +24,8 @@ THEOREMS = [
     'OpenHTF.Kill.c12_no_false_timeout',
     'OpenHTF.Kill.c12_timeout_only_if_still_running_at_deadline',
     'OpenHTF.Kill.c12_still_running_at_deadline_times_out',
+    'OpenHTF.Kill.c12_locked_probe_is_the_targets_hold',
+    'OpenHTF.Kill.probe_by_acquire_misleads_a_second_killer',
     'OpenHTF.Kill.c12_bounded_delay',
     'OpenHTF.Kill.c12_hung_body_times_out',
     'OpenHTF.Kill.c12_default_timeout',
@@ -86,6 +88,8 @@ def _k_body(case, res):
           s.yield_point('body')
           s.log('bstep', self)
         s.log('bend', self)
+        if self._cosched_name == 'tgt':
+          res['body_returned'] = True
       except threads.ThreadTerminationError:
         s.log('tte-in-body', self)
         raise
@@ -136,6 +140,15 @@ def _k_body(case, res):
     for j in range(case['concurrent']):
       t = threading.Thread(target=tgt.kill)
       t._cosched_name = 'k%d' % j
+      ks.append(t)
+    # killers that call kill() only once the body has returned (the time-out kill of join_or_die and the kill of an
+    # abort, both arriving while the thread is in its handlers)
+    def late_kill():
+      s.block(lambda: res.get('body_returned') or tgt._cosched_ts.finished, None, 'wait-for-body-end')
+      tgt.kill()
+    for j in range(case.get('late', 0)):
+      t = threading.Thread(target=late_kill)
+      t._cosched_name = 'late%d' % j
       ks.append(t)
     for t in ks[:case.get('early', 0)]:
       t.start()
@@ -217,6 +230,9 @@ def _k_abstract(events, tgt):
     elif op in ('acq', 'tryacq-failed') and obj is lock and st[1] == 2:
       toks.append('kt:%d' % i)
       st[1] = 3 if op == 'tryacq-failed' else 9
+    elif op == 'locked' and obj is lock and st[1] == 2:
+      toks.append('kt:%d' % i)
+      st[1] = 3 if extra else 9
     elif op == 'async_raise' and st[1] == 4:
       toks.append('kr:%d' % i)
       st[1] = 9
@@ -227,7 +243,10 @@ def _k_abstract(events, tgt):
 
 def _run_k(case, chooser=None):
   res = {}
-  box, s = sched.run(chooser or _chooser(case), _k_body(case, res), max_steps=5000)
+  threads = _install_k()
+  # the lock probe of kill() is two calls (try-acquire, release): a thread switch between them is possible in CPython
+  codes = sched.codes_of(threads.KillableThread._is_thread_proc_running) if case.get('late') else None
+  box, s = sched.run(chooser or _chooser(case), _k_body(case, res), max_steps=5000, trace_lines=codes)
   tgt = res['tgt']
   toks, facts, where = _k_abstract(s.events, tgt)
   ops = [(th, op) for (th, op, obj, extra) in s.events if obj is tgt or th == 'tgt']
@@ -445,7 +464,10 @@ def nontrivial_key(case, o):
 def _dfs(cfg, bound, limit):
   out = []
   res = {}
-  for box, s, choices in sched.explore(_k_body(cfg, res), preemption_bound=bound, limit=limit, max_steps=5000):
+  threads = _install_k()
+  codes = sched.codes_of(threads.KillableThread._is_thread_proc_running) if cfg.get('late') else None
+  for box, s, choices in sched.explore(_k_body(cfg, res), preemption_bound=bound, limit=limit, max_steps=5000,
+                                       trace_lines=codes):
     out.append(dict(cfg, choices=choices))
   return out
 
@@ -466,6 +488,12 @@ def gen_cases(rng, tier):
     cases.append(dict(base, before=r.choice([0, 0, 1]), concurrent=c, early=r.randrange(c + 1), after=r.choice([0, 1]),
                       steps=r.choice([0, 1, 2, 3]), rseed=r.getrandbits(32), switch=r.choice([0.3, 0.6, 0.9]),
                       raises=r.random() < 0.4))
+  # two or three killers that all arrive after the body has returned
+  for i in range(150 if quick else 3000):
+    r = rng.derive('kl%d' % i)
+    cases.append(dict(base, late=r.choice([2, 2, 3]), steps=r.choice([0, 1, 2]), rseed=r.getrandbits(32),
+                      switch=r.choice([0.3, 0.6, 0.9]), raises=r.random() < 0.6))
+  cases += _dfs(dict(base, late=2, steps=0, raises=True), 3, 600 if quick else 6000)
   # J: durations around the deadline and every poll instant
   for timeout, interval in [(0, 4), (1, 4), (16, 4), (16, 5), (16, 16), (17, 4), (40, 16), (48, 48), (8, 32)]:
     ds = set([0, 1, timeout - 1, timeout, timeout + 1, timeout + interval - 1, timeout + interval, timeout + interval + 1, None])
